@@ -500,6 +500,25 @@ fn conv<const N: usize>(t: &mut Tape<'_>, o: &mut Obs) -> R {
             be.reverse();
             ensure_eq!(big(&BigInt::<N>::from_bits_le(&le).0), v, "from_bits_le");
             ensure_eq!(big(&BigInt::<N>::from_bits_be(&be).0), v, "from_bits_be");
+            if len > 64 * N && t.chance(1, 2) {
+                // over-long vectors whose excess bits are NOT all zero: the documentation is silent; like every other
+                // operation of the type the conversion keeps the value modulo 2^(64N) (callers such as bit-stream
+                // multiplication pass arbitrary-length streams), in particular it does not panic
+                let mut le2 = le.clone();
+                let extra = len - 64 * N;
+                let k = 1 + t.below(extra.min(3) as u64) as usize;
+                for j in 0..k {
+                    let pos = 64 * N + if j == 0 { t.below(extra as u64) as usize } else { (t.u64() as usize) % extra };
+                    le2[pos] = true;
+                }
+                let mut be2 = le2.clone();
+                be2.reverse();
+                o.class("bits-longer-than-width-with-excess-bits-set");
+                let got = vh_core::engine::no_panic("from_bits_le.excess", || BigInt::<N>::from_bits_le(&le2))?;
+                ensure_eq!(big(&got.0), v, "from_bits_le.excess");
+                let got = vh_core::engine::no_panic("from_bits_be.excess", || BigInt::<N>::from_bits_be(&be2))?;
+                ensure_eq!(big(&got.0), v, "from_bits_be.excess");
+            }
             Ok(())
         },
         2 => {
@@ -845,7 +864,7 @@ fn main() {
         rule: "BigInt<N> for N = 1..13 and 14, 16, 24, 25 (beyond the largest alias: several full rounds of the unrolled limb loops). Operands decoded from a proptest tape: 0, 1, 2, 3, 2^k and 2^k-1 (k next to limb boundaries half of the time), all ones, alternating limbs / bit patterns, 2^(64N)-1-small, edge limbs, small, uniform; second operands correlated 1/5 of the time (a, !a, -a, a+-1); shift amounts 0, 1, 63, 64, 65, 64N-1, 64N, 64N+1, u32::MAX, multiples of 64, uniform up to 64N+65; bit vectors shorter/equal/longer than 64N (excess bits zero) incl. lengths one bit short of / at / beyond every limb boundary; decimal strings and BigUint around 2^(64N) with leading zeros; windows 2..63 (and invalid ones); recodings additionally on values within 2^(w-1) of 2^(64N) and exhaustively on the smallest and largest values of every width. Additionally limb-primitives: the public single-limb building blocks adc, adc_for_add_with_carry, adc_no_carry, sbb_for_sub_with_borrow, widening_mul, mac, mac_discard, mac_with_carry on edge words (0, 1, MAX, 2^k, 2^k-1, small, uniform) for every argument incl. the carry word, results and carries against BigUint. Oracle: num-bigint. Non-trivial: limb-primitives - the sum or the product leaves the limb; arith - a carry or borrow leaves some limb; shift - value != 0 and (shift >= 64 or a bit crosses a limb boundary / falls off); mul - product wider than 64 bits; conversions - value wider than one limb (or > 1 for N = 1), length != 64N, or too wide; const helpers - same; recodings - value > 3 and the recoding contains a negative digit (a carry was propagated). distinct = distinct decoded choice sequences.",
         assumptions: &[
             "num-bigint arithmetic, parsing and printing are correct (oracle)",
-            "from_bits_le/be are only given bit vectors whose bits beyond position 64N are zero (behaviour for wider values is not documented)",
+            "from_bits_le/be with set bits beyond position 64N: the documentation is silent; the check demands what the code does and what the rest of the type does on overflow - the value modulo 2^(64N), without a panic",
             "const_num_bits is only checked on values with a non-zero top limb (its only use: moduli); montgomery_r/r2 and two_adic_* on odd values >= 3",
         ],
         relations,
